@@ -135,7 +135,9 @@ func init() {
 			return seqCases(master, n, nil)
 		},
 		Gen:            func(c Case, pool *Pool) *Plan { return GenJWS(c.Seed, pool) },
-		RequiredProbes: map[string][]string{"thorough": {"leading_zero_sig_P-256", "leading_zero_sig_P-384", "leading_zero_sig_P-521", "leading_zero_sig_secp256k1"}},
+		RequiredProbes: map[string][]string{"quick": {"double_leading_zero_sig_P-256", "double_leading_zero_sig_P-384", "double_leading_zero_sig_P-521", "double_leading_zero_sig_secp256k1", "jws_extra_protected_headers"},
+			"thorough": {"leading_zero_sig_P-256", "leading_zero_sig_P-384", "leading_zero_sig_P-521", "leading_zero_sig_secp256k1",
+				"double_leading_zero_sig_P-256", "double_leading_zero_sig_P-384", "double_leading_zero_sig_P-521", "double_leading_zero_sig_secp256k1", "jws_extra_protected_headers"}},
 		Components: enumComponents(map[string]string{"signutil.SignPayload, ecsigner.Signer, edsigner.Signer": "real", "jwsutil.VerifyJWS / ParseJWS / VerifySignature": "real",
 			"pubkey.GetPublicKeyJWK, go-jose, btcec": "real", "channel flipping bits of the three segments": "stub (adversary)"}),
 		Assumptions: append([]string{"ECDSA (r, n-s) malleability is not a single-bit change and is not generated"}, worldAssumptions...),
@@ -148,14 +150,14 @@ func init() {
 			"empty, wrong crv, swapped coordinates: rejected. distinct_nontrivial = distinct pool keys",
 		Cases: func(master uint64, tier string) []Case {
 			if tier == "thorough" {
-				// a larger pool drawn from the master seed: 60 keys per type plus 12 + 12 leading-zero keys per curve
-				return seqCases(master, 1, func(int) int { return 5*60 + 4*24 + 8 })
+				// a larger pool drawn from the master seed: 1000 keys per type plus 60 + 60 leading-zero keys per curve
+				return seqCases(master, 1, func(int) int { return 5*1000 + 4*120 + 8 })
 			}
 			return seqCases(master, 1, func(int) int { return 70 })
 		},
 		Pool: func(tier string) [3]uint64 {
 			if tier == "thorough" {
-				return [3]uint64{0xC0FFEE + 16, 60, 12}
+				return [3]uint64{0xC0FFEE + 16, 1000, 60}
 			}
 			return DefaultPool
 		},
